@@ -131,6 +131,57 @@ Theorem C34_stable : forall (f_rev f_obj f_miss : bool) attr_ent attr_rev attr_h
 Proof. exact stable. Qed.
 Print Assumptions C34_stable.
 
+(* the schema section of to_json lists an attribute only if the declared rules let the user view its entity, the attribute and -
+   for a relationship - the entity and attribute on the other side; an entity iff the rules let him view it *)
+Theorem C34_schema_spec : forall attr_ent attr_rev attr_hidden obj_ent (rules : nat -> nat -> list rule) ugroups uroles olabels a,
+  schema_attr rev_loop_iterates_reverse_rules obj_exclusion_tests_entity missing_reverse_rules_returns_false
+              attr_ent attr_rev attr_hidden obj_ent rules ugroups uroles olabels a = true ->
+  (spec attr_ent attr_rev attr_hidden obj_ent rules ugroups uroles olabels VIEW (TEntity (attr_ent a))
+   \/ spec attr_ent attr_rev attr_hidden obj_ent rules ugroups uroles olabels EDIT (TEntity (attr_ent a)))
+  /\ (spec attr_ent attr_rev attr_hidden obj_ent rules ugroups uroles olabels VIEW (TAttr a)
+      \/ spec attr_ent attr_rev attr_hidden obj_ent rules ugroups uroles olabels EDIT (TAttr a))
+  /\ (forall rv, attr_rev a = Some rv ->
+        (spec attr_ent attr_rev attr_hidden obj_ent rules ugroups uroles olabels VIEW (TEntity (attr_ent rv))
+         \/ spec attr_ent attr_rev attr_hidden obj_ent rules ugroups uroles olabels EDIT (TEntity (attr_ent rv)))
+        /\ (spec attr_ent attr_rev attr_hidden obj_ent rules ugroups uroles olabels VIEW (TAttr rv)
+            \/ spec attr_ent attr_rev attr_hidden obj_ent rules ugroups uroles olabels EDIT (TAttr rv))).
+Proof. exact schema_now_spec. Qed.
+Print Assumptions C34_schema_spec.
+
+Theorem C34_schema_entity_spec : forall attr_ent attr_rev attr_hidden obj_ent (rules : nat -> nat -> list rule) ugroups uroles olabels e,
+  schema_entity rev_loop_iterates_reverse_rules obj_exclusion_tests_entity missing_reverse_rules_returns_false
+                attr_ent attr_rev attr_hidden obj_ent rules ugroups uroles olabels e = true
+  <-> spec attr_ent attr_rev attr_hidden obj_ent rules ugroups uroles olabels VIEW (TEntity e)
+      \/ spec attr_ent attr_rev attr_hidden obj_ent rules ugroups uroles olabels EDIT (TEntity e).
+Proof. exact schema_entity_now_spec. Qed.
+Print Assumptions C34_schema_entity_spec.
+
+(* declarations and inheritance: a rule declared (set_perms_for + perm) for a base entity is in the rule set of the base and of
+   every subclass; an entity's rule set consists exactly of the rules declared for itself or an ancestor; exclude(Entity) covers
+   the subclasses; a hidden attribute is never granted *)
+Theorem C34_declared_rule_reaches_subclasses : forall subs ds d base sub p,
+  In d ds -> In base (d_ctx d) -> In sub (subs base) -> In p (d_perms d) ->
+  In (expand subs d) (rules_of_decls subs ds base p) /\ In (expand subs d) (rules_of_decls subs ds sub p).
+Proof. exact declared_rule_reaches_subclasses. Qed.
+Print Assumptions C34_declared_rule_reaches_subclasses.
+
+Theorem C34_rules_of_declarations : forall subs ds e p r,
+  In r (rules_of_decls subs ds e p) <->
+  exists d, In d ds /\ r = expand subs d /\ In p (d_perms d) /\ (In e (d_ctx d) \/ exists base, In base (d_ctx d) /\ In e (subs base)).
+Proof. exact rules_of_decls_exact. Qed.
+Print Assumptions C34_rules_of_declarations.
+
+Theorem C34_exclusion_reaches_subclasses : forall subs d base sub,
+  In base (r_exclE (d_rule d)) -> In sub (subs base) ->
+  mem base (r_exclE (expand subs d)) = true /\ mem sub (r_exclE (expand subs d)) = true.
+Proof. exact exclusion_reaches_subclasses. Qed.
+Print Assumptions C34_exclusion_reaches_subclasses.
+
+Theorem C34_hidden_attribute_never_granted : forall f_rev f_miss attr_ent attr_rev attr_hidden (rules : nat -> nat -> list rule) ugroups a p,
+  attr_hidden a = true -> has_perm_attr f_rev f_miss attr_ent attr_rev attr_hidden rules ugroups a p = false.
+Proof. exact hidden_attr_never_granted. Qed.
+Print Assumptions C34_hidden_attribute_never_granted.
+
 (* ... and across sessions: however the previous session of the thread ended (commit, or rollback after an exception / a failed
    commit), the first check of the next session is answered from what the group / role / label providers say at that moment -
    no answer of an earlier session's providers survives (where the caches are cleared is re-read from _commit_or_rollback) *)
